@@ -134,6 +134,12 @@ class PoolDomain(AffineDomain):
     def assume(self, flow, s, cond, truth):
         c = strip(cond, casts=True)
         cc_ = flow.canon(s, c)
+        # the item of a record that was located through the hash (index != 0) is the pool_item stored at enqueue: never NULL
+        mm_ = re.fullmatch(r"\(.*heap\[cmi_hash_find_index\(.*\)\]\.item (!=|==) (NULL|0)\)", cc_ or "")
+        if mm_:
+            return [s] if ((mm_.group(1) == "!=") == bool(truth)) else []
+        if re.fullmatch(r"\(NULL (!=|==) NULL\)", cc_ or ""):
+            return [s] if (("==" in cc_) == bool(truth)) else []
         if "peek_ikey" in cc_ or ".heap[1].isortkey" in cc_:
             self.log["victim_conds"].add((cc_, self.m.rel(loc(cond))))
         if c["kind"] == "BinaryOperator" and c.get("opcode") in ("==", "!="):
@@ -635,7 +641,18 @@ def rules(rep, m):
         t_ = common.as_ternary(hcx, hb, rn_[0]) if rn_ else ""
         mm_ = re.fullmatch(r"\((.+) \? (.+) : (.+)\)", t_)
         if mm_ and mm_.group(3).strip() in ("0", "0.0") and "amount" in mm_.group(2):
-            rv = ["0", mm_.group(2) if rec_key(mm_.group(2)) else rv[0]]
+            recd = mm_.group(2)
+            if not rec_key(recd):
+                # the record pointer is a local given NULL (not found) or the located item: read through the located item
+                mv = re.fullmatch(r"(\w+)->amount", recd)
+                if mv:
+                    vals_ = [hcx.canon(r_) for l_, r_, k_, n_ in inv.stores(hb)
+                             if r_ is not None and k_ == "=" and render(strip(l_, casts=True)) == mv.group(1)]
+                    vals_ += [hcx.canon(kids(d_)[0]) for d_ in walk(hb.body) if d_["kind"] == "VarDecl" and d_.get("name") == mv.group(1) and kids(d_)]
+                    live_ = [v_ for v_ in vals_ if v_ not in ("NULL", "0")]
+                    if len(live_) == 1:
+                        recd = live_[0] + "->amount" if not live_[0].startswith("&") else live_[0][1:] + ".amount"
+            rv = ["0", recd if rec_key(recd) else rv[0]]
             if not rec_key(rv[1]):
                 raise AnalysisBroken("cmb_resourcepool_held_by_process: the record read (%s) is not understood" % mm_.group(2))
     if len(rv) != 2 or rv[0] != "0" or not rec_key(rv[1]):
